@@ -11,8 +11,9 @@
 //    {"e":"Cfg",signal,rules,dflt} {"e":"Get",scope,"eq":[h..]} {"e":"Emit","h","appeared":bool}
 //    and validated by spec/ScopeConfigTrace.tla.
 //
-// Concretisation: scope name token N -> "lib"+N | "io.example."+lower(N) | "svc.a", "svc.a.b", ... (names
-// that are prefixes of one another) (variant by seed), version
+// Concretisation (struct Conc, 5 variants by seed): scope name token N -> "lib"+N | "io.example."+lower(N) |
+// mutually prefixing names | two tables of RELATED identities whose name+version+schema concatenations
+// coincide; version
 // and schema as given ("s" -> https://example.test/s), attr "a" -> {"scope.attr": "a"}; the strings
 // are passed as NON-terminated views into heap blocks that are overwritten and freed after the call.
 // Rules: name -> AddConditionNameEquals, ver/any/none -> AddCondition(lambda).
@@ -52,22 +53,52 @@ struct Item  // one unit of telemetry as seen at the exporter / reader
   std::string what, name, version, schema;
 };
 
+// Concretisation of the abstract scope identity tokens.  Per field the map is injective, so distinct
+// abstract identities stay distinct tuples; variants 3 and 4 make the identities RELATED: the
+// concatenations name+version+schema of different identities coincide (("a","b","c") / ("ab","","c") /
+// ("a","","bc") / ("abc","",""); ("db","2") / ("db2","")), fields are prefixes of one another, and
+// the empty version/schema stays empty.
 struct Conc
 {
   int variant;
+  static int idx(const std::string &n) { return n.empty() ? 0 : (n[0] - 'A') % 6; }
   std::string name(const std::string &n) const
   {
+    static const char *abc[6] = {"a", "ab", "abc", "b", "bc", "c"};
+    static const char *db[6]  = {"db", "db2", "db2.1", "d", "b2", "db21"};
     if (variant == 0)
       return "lib" + n;
     if (variant == 2)  // names that are prefixes of one another
-      return std::string("svc.a.b.c.d.e.f").substr(0, 5 + 2 * static_cast<size_t>(n.empty() ? 0 : (n[0] - 'A') % 6));
+      return std::string("svc.a.b.c.d.e.f").substr(0, 5 + 2 * static_cast<size_t>(idx(n)));
+    if (variant == 3)
+      return abc[idx(n)];
+    if (variant == 4)
+      return db[idx(n)];
     std::string l = n;
     for (auto &ch : l)
       ch = static_cast<char>(tolower(ch));
     return "io.example." + l;
   }
-  std::string schema(const std::string &s) const { return s.empty() ? "" : "https://example.test/" + s; }
+  std::string version(const std::string &v) const
+  {
+    if (v.empty() || variant < 3)
+      return v;
+    if (variant == 3)
+      return v == "1.0" ? "b" : "bc";
+    return v == "1.0" ? "2" : "2.1";
+  }
+  std::string schema(const std::string &s) const
+  {
+    if (s.empty())
+      return "";
+    if (variant == 3)
+      return s == "s" ? "c" : "bc";
+    if (variant == 4)
+      return s == "s" ? ".1" : "1";
+    return "https://example.test/" + s;
+  }
 };
+static const int kConcVariants = 5;
 
 template <class Config>
 std::unique_ptr<sc::ScopeConfigurator<Config>> build_configurator(const json &rules, bool dflt, const Conc &cc)
@@ -83,7 +114,10 @@ std::unique_ptr<sc::ScopeConfigurator<Config>> build_configurator(const json &ru
       b.AddConditionNameEquals(nb.view(), cfg);
     }
     else if (k == "ver")
-      b.AddCondition([v](const sc::InstrumentationScope &s) { return s.GetVersion() == v; }, cfg);
+    {
+      std::string cv = cc.version(v);
+      b.AddCondition([cv](const sc::InstrumentationScope &s) { return s.GetVersion() == cv; }, cfg);
+    }
     else if (k == "any")
       b.AddCondition([](const sc::InstrumentationScope &) { return true; }, cfg);
     else
@@ -201,7 +235,7 @@ struct Sut
   {
     // the arguments live in heap blocks, (seeded) not terminated at the end of the view, and are
     // overwritten and freed right after the call
-    Buf nb(cc.name(s.name), rng.below(2) ? "good" : "z", "!!"), vb(s.version, rng.below(2) ? "good" : "z", "9"),
+    Buf nb(cc.name(s.name), rng.below(2) ? "good" : "z", "!!"), vb(cc.version(s.version), rng.below(2) ? "good" : "z", "9"),
         sb(cc.schema(s.schema), rng.below(2) ? "good" : "z", "/x");
     if (signal == "trace")
       tracers.push_back(tp->GetTracer(nb.view(), vb.view(), sb.view()));
@@ -252,7 +286,7 @@ struct Sut
     if (fresh.size() > 1)
       return "many";
     const Scope &s = scopes[h];
-    if (fresh[0].what != uniq || fresh[0].name != cc.name(s.name) || fresh[0].version != s.version ||
+    if (fresh[0].what != uniq || fresh[0].name != cc.name(s.name) || fresh[0].version != cc.version(s.version) ||
         fresh[0].schema != cc.schema(s.schema))
       return "wrongscope";
     return "yes";
@@ -274,7 +308,7 @@ int run_scopes(std::istream &in, uint64_t seed, int instances)
     for (int k = 0; k < instances; ++k)
     {
       Rng rng(mix(seed, static_cast<uint64_t>(id), static_cast<uint64_t>(k)));
-      Sut sut(c["signal"], c["rules"], c["dflt"], Conc{static_cast<int>(rng.below(3))});
+      Sut sut(c["signal"], c["rules"], c["dflt"], Conc{static_cast<int>(rng.below(kConcVariants))});
       json res = json::array();
       for (auto &st : c["steps"])
       {
@@ -352,7 +386,7 @@ int run_record(uint64_t seed, int executions, int ops)
     }
     bool dflt = rng.below(3) != 0;
     std::cout << json({{"e", "Cfg"}, {"signal", signal}, {"rules", rules}, {"dflt", dflt}}).dump() << "\n";
-    Sut sut(signal, rules, dflt, Conc{static_cast<int>(rng.below(3))});
+    Sut sut(signal, rules, dflt, Conc{static_cast<int>(rng.below(kConcVariants))});
     for (int o = 0; o < ops; ++o)
     {
       if (sut.nhandles() == 0 || rng.below(5) < 2)
